@@ -42,6 +42,17 @@ def run(ctx: Ctx):
     from .common import generic_lints
 
     generic_lints(ctx)
+    from .common import subtotal_free_types
+
+    subtotal_free_types(ctx)
+    from .common import subtotal_terms_once
+
+    subtotal_terms_once(ctx)
+    # the insertion blocks / subtotal values of a measure are cached and handed out by reference: no layer writes into a
+    # block it did not create (a NaN stamped into another measure's subtotal block shows up in that measure afterwards)
+    from .common import no_shared_writes
+
+    no_shared_writes(ctx, "no-shared-write", origin_words=("blocks", "subtotal"))
     additive_blocks(ctx)
     gather_not_weights(ctx)
     from . import c05
